@@ -661,6 +661,20 @@ def main(chk):
             if len(src) <= 400:
                 tasks.append([repair_depth(src[:i]) for i in range(len(src) + 1)])
                 kinds.append("every-prefix")
+    # what eval has to hand back: every global by name, its prototype, and result shapes that are hard to convert
+    names = sorted(set(GLOBAL_FUNCS + ["Math", "JSON", "console", "NaN", "Infinity", "undefined", "globalThis", "this"]))
+    shapes = list(names) + ["%s.prototype" % n for n in names] + ["new %s()" % n for n in names] + [
+        "var o = {}; o.self = o; o", "var a = []; a.push(a); a", "var o = {}; o.a = [o]; o", "var p = {}, q = {p: p}; p.q = q; [p, q]",
+        "var a = []; for (var i = 0; i < 5000; i++) a = [a]; a", "var o = {}; for (var i = 0; i < 5000; i++) o = {k: o}; o",
+        "var a = []; for (var i = 0; i < 200; i++) a = [a, a]; 0", "var a = []; for (var i = 0; i < 18; i++) a = [a, a]; a",
+        "var a = []; for (var i = 0; i < 100000; i++) a.push(i); a", "(function(){ return arguments; })(1, 2)", "(function f(){ return f; })()",
+        "var f = function(){}; f.self = f; f", "[function(){}, /a/g, new Error('e'), new Uint8Array(2), new ArrayBuffer(2), Math, JSON]",
+        "var e = new Error('x'); e.cause = e; e", "var r = /a/; r.self = r; r", "var t = new Uint8Array(2); t.self = t; t",
+        "Object.create(null)", "var o = Object.create(null); o.o = o; o", "var o = {}; Object.defineProperty(o, 'g', {get: function(){ return o; }, enumerable: true}); o",
+        "var o = {get g(){ throw new Error('getter'); }}; o", "[1, 2, 3].map", "({}).toString", "eval", "Function.prototype", "(function(){}).bind(null)",
+    ]
+    tasks.append([repair_depth(x) for x in shapes])
+    kinds.append("result-shapes")
     res = pool.run(front_task, tasks, timeout=900)
     for kind, task, rb in zip(kinds, tasks, res):
         if isinstance(rb, (pool.HANG, pool.CRASH)):
